@@ -36,11 +36,14 @@ CHECKS["C04"] = {
           "SACK absent iff nothing held out of order, advertised window <= free space of the configured buffer, in-order stream only "
           "grows by appending and reads return its next bytes (no discard). Tied to the real UserRx/UtpStreamReadHalf by differential "
           "op-list runs comparing every observer, waker registrations and wake-ups; the extracted predicate c04_ok (proved true of every "
-          "model trace) is evaluated on the implementation's traces.",
+          "model trace) is evaluated on the implementation's traces. Connection level (component vsock_ack): the M3 model vs the real "
+          "VirtualSocket differentially on shared + receive-side scenarios, and the trace predicate c04_vsock_ack_ok (an emitted ack_nr k "
+          "above the starting number requires that all k sequence numbers in between were delivered; emitted ack numbers never move "
+          "back) evaluated on every implementation trace - MONITORED, not yet a theorem of the M3 model (it found D19).",
   "design_ref": "DESIGN.md section 6 C04",
   "note": "Trusted: Coq kernel, hand-written model, extraction, drivers, generators; atomicity of each locked method. No axioms. "
-          "Partial: the dispatcher-side use (ack_nr/wnd_size/SACK of emitted packets computed from this state, rounding to MSS) is "
-          "covered at the connection level, not by this component check.",
+          "Partial: the dispatcher-side use (ack_nr of emitted packets) is monitored by c04_vsock_ack_ok and by the M3 correspondence; "
+          "wnd_size/SACK of emitted packets are covered by the correspondence only.",
   "technique": "Coq proof (invariant by induction over op lists) + differential correspondence",
 }
 
